@@ -1,5 +1,6 @@
 import PyaisVerif.Lemmas.RoundTrip
 import PyaisVerif.Lemmas.Prefix
+import PyaisVerif.Lemmas.Values
 import PyaisVerif.Properties.C01
 import PyaisVerif.Properties.C04
 import PyaisVerif.Properties.C08
@@ -237,6 +238,86 @@ theorem C02_roundtrip (cls : String) (fs : List Field)
   unfold decodeBits at hdb
   exact hdb
 
+/-- **Round trip of every assignment of wire-representable field values.**  Give every field of a
+class a value that the *standard* (`Spec.check`, the layout specification of C01) assigns to some
+bit pattern of the field's width — any unsigned / signed / scaled number of the wire grid, any
+member of an enumeration, any canonical six-bit text, any binary content; a variable-length last
+field may be shorter than its maximum (`Model.Wire`) — such that the type id and discriminator
+patterns select the class.  Then `encode_msg` of that message, decoded again with `decode()`, yields
+exactly these values: same class/variant, every field equal. -/
+theorem C02_roundtrip_values (cls : String) (fs : List Field)
+    (hfs : Generated.classes.lookup cls = some fs)
+    (slices : List Bits) (vals : List Val) (hwire : Wire C08.E fs slices vals)
+    (hsel : select slices.flatten = .ok cls) (hmin : selLen cls ≤ slices.flatten.length)
+    (talker chan : Bytes) (ht : talkerOk talker = true) (hc : chanOk chan = true) :
+    ∃ sents,
+      encodeMsg env MAXLEN { cls := cls, fields := (fs.map (·.name)).zip vals } talker chan = .ok sents ∧
+      decodeArgs K env false sents = .ok { cls := cls, fields := (fs.map (·.name)).zip vals } := by
+  obtain ⟨hdec, hpad, hb, hne, _⟩ := wire_decode env C08.E C08.tables_ok fs slices vals hwire
+  obtain ⟨kv, sents, h1, h2, h3⟩ := C02_roundtrip cls fs hfs slices.flatten hsel hmin hb hpad hne
+    talker chan ht hc
+  rw [hdec] at h1
+  cases h1
+  exact ⟨sents, h2, h3⟩
+
+/-! ### which values are wire-representable (explicit ranges for the common kinds) -/
+
+/-- every unsigned integer below `2^w` -/
+theorem wire_unsigned (w i : Nat) (h : i < 2 ^ w) :
+    (ofNat w i).length = w ∧ SliceOK C08.E.membersOf .u (ofNat w i) ∧
+      check C08.E.membersOf .u (ofNat w i) (.int i) = true := by
+  refine ⟨ofNat_length w i, ⟨fun h => (by cases h), fun _ h => (by cases h)⟩, ?_⟩
+  simp only [check, beq_iff_eq, toNat_ofNat, Nat.mod_eq_of_lt h]
+
+/-- both flags -/
+theorem wire_bool (b : Bool) :
+    ([b] : Bits).length = 1 ∧ SliceOK C08.E.membersOf .b [b] ∧
+      check C08.E.membersOf .b [b] (.bool b) = true := by
+  refine ⟨rfl, ⟨fun h => (by cases h), fun _ h => (by cases h)⟩, ?_⟩
+  cases b <;> decide
+
+/-- every member of an enumeration whose code fits the field -/
+theorem wire_enum (cls : String) (w m : Nat) (h : m < 2 ^ w)
+    (hm : (C08.E.membersOf cls).contains (m : Int) = true) :
+    (ofNat w m).length = w ∧ SliceOK C08.E.membersOf (.e cls) (ofNat w m) ∧
+      check C08.E.membersOf (.e cls) (ofNat w m) (.enum cls m) = true := by
+  have e : toNat (ofNat w m) = m := by rw [toNat_ofNat, Nat.mod_eq_of_lt h]
+  refine ⟨ofNat_length w m, ⟨fun h => (by cases h), fun c hc => (by cases hc; rw [e]; exact hm)⟩, ?_⟩
+  simp only [check, e, hm, beq_self_eq_true, Bool.and_self, Bool.not_true, Bool.false_or]
+
+/-- every multiple of 0.1 below `2^w` tenths (speed, course, draught) -/
+theorem wire_tenths (w i : Nat) (h : i < 2 ^ w) :
+    (ofNat w i).length = w ∧ SliceOK C08.E.membersOf .U1 (ofNat w i) ∧
+      check C08.E.membersOf .U1 (ofNat w i) (.flt ((i : Int) * 100000)) = true := by
+  refine ⟨ofNat_length w i, ⟨fun h => (by cases h), fun _ h => (by cases h)⟩, ?_⟩
+  simp only [check, beq_iff_eq, toNat_ofNat, Nat.mod_eq_of_lt h]
+
+/-- every position of the 1/10000-minute grid: the six-decimal number nearest to `r / 600000`
+degrees, for every signed wire value `r` of the field -/
+theorem wire_position (w : Nat) (r : Int) (hw : 0 < w) (h1 : -(2 : Int) ^ (w - 1) ≤ r) (h2 : r < 2 ^ (w - 1)) :
+    (ofInt w r).length = w ∧ SliceOK C08.E.membersOf .I4 (ofInt w r) ∧
+      check C08.E.membersOf .I4 (ofInt w r) (.flt (roundHalfEvenDiv (r * 1000000) 600000)) = true := by
+  refine ⟨by simp [ofInt], ⟨fun h => (by cases h), fun _ h => (by cases h)⟩, ?_⟩
+  simp only [check, beq_iff_eq, toInt_ofInt w r hw ⟨h1, h2⟩]
+
+/-- every canonical text (characters of the six-bit alphabet other than `@`, no outer blanks) that
+fits the field, padded with `@` -/
+theorem wire_text (s : List Nat) (hs : CanonText s) (w : Nat) (hlen : s.length ≤ w / 6) :
+    ∃ b : Bits, b.length = w ∧ SliceOK C08.E.membersOf .t b ∧
+      check C08.E.membersOf .t b (.str s) = true := by
+  obtain ⟨b0, _, hl, hd⟩ := strToBin_canon_padded s hs w hlen (w % 6)
+  have hlen' : (b0 ++ zeros (w % 6)).length = w := by
+    rw [List.length_append, hl, zeros_length]; omega
+  have hpad : ∀ x ∈ (b0 ++ zeros (w % 6)).drop ((b0 ++ zeros (w % 6)).length / 6 * 6), x = false := by
+    intro x hx
+    rw [hlen'] at hx
+    have e : w / 6 * 6 = b0.length := by rw [hl]; omega
+    rw [e, List.drop_left] at hx
+    exact (List.mem_replicate.mp hx).2
+  refine ⟨b0 ++ zeros (w % 6), hlen', ⟨fun _ => hpad, fun _ h => (by cases h)⟩, ?_⟩
+  simp only [check, beq_iff_eq]
+  rw [← decodeAscii6_eq_text _ hpad, hd]
+
 /-- **Both entry points**: `encode_dict` (type given as `type` or as `msg_type`) is `create`
 followed by `encode_msg`. -/
 theorem C02_encode_dict (kw : List (String × Val)) (talker chan : Bytes) (t : Int) (cls : String) (m : Msg)
@@ -324,11 +405,41 @@ example : (match select (ofNat 6 21 ++ ofNat 354 0) with
   refine ⟨by decide +kernel, by decide +kernel, Or.inl ⟨Generated.T_MessageType21.length, Nat.le_refl _, ?_⟩⟩
   decide +kernel
 
+macro "wire_step" k:term : tactic =>
+  `(tactic| refine Wire.cons _ $k _ _ _ _ _ (by decide +kernel) (by decide +kernel) (by decide +kernel)
+      ⟨fun h => (by cases h), fun _ h => (by cases h)⟩ (by decide +kernel) (by decide +kernel) ?_)
+
+/-- non-vacuity of `C02_roundtrip_values`: a type-10 message given by its field values (each the
+standard's reading of a bit pattern of the field's width); its patterns select `MessageType10` -/
+example : Wire C08.E Generated.T_MessageType10
+      [ofNat 6 10, ofNat 2 1, ofNat 30 123456789, [false, false], ofNat 30 987654321, [false, false]]
+      [.int 10, .int 1, .int 123456789, .bytes [0], .int 987654321, .bytes [0]] ∧
+    (match select ([ofNat 6 10, ofNat 2 1, ofNat 30 123456789, [false, false], ofNat 30 987654321,
+        [false, false]] : List Bits).flatten with
+      | .ok c => c == "MessageType10"
+      | .error _ => false) = true := by
+  refine ⟨?_, by decide +kernel⟩
+  unfold Generated.T_MessageType10
+  wire_step .u
+  wire_step .u
+  wire_step .u
+  wire_step .d
+  wire_step .u
+  wire_step .d
+  exact Wire.nil
+
 #print axioms prefix_tables
 #print axioms select_congr
 #print axioms selLen_of_select
 #print axioms maxlen_ok
 #print axioms C02_roundtrip
+#print axioms C02_roundtrip_values
+#print axioms wire_unsigned
+#print axioms wire_bool
+#print axioms wire_enum
+#print axioms wire_tenths
+#print axioms wire_position
+#print axioms wire_text
 #print axioms C02_encode_dict
 #print axioms C02_create
 #print axioms C02_quantisation_positions
